@@ -25,6 +25,7 @@ struct C01Plan
   int init_threads;
   int lazy_teardown;   // internal back end used without initialisation: the scheduler it created on first use is replaced at the end
   int ncalls;
+  int concurrent;      // 1: the calls are made at the same time, each from an application thread of its own (tbb / omp / serial lanes)
   C01Call calls[C01_MAXCALLS];
 };
 extern "C" {
